@@ -4,7 +4,7 @@
 # against /repo with the change applied, and undo it.
 set -u
 ROOT=$(cd "$(dirname "$(readlink -f "$0")")/.." && pwd)
-PID=$1; NAME=${2:-$PID}; WT=/tmp/wt_$PID; OUT=/verif/seeded/$NAME
+PID=$1; NAME=${2:-$PID}; WT=${WTDIR:-/tmp/wt_$PID}; OUT=/verif/seeded/$NAME
 export CARGO_NET_OFFLINE=true
 mkdir -p $OUT
 cd $WT || exit 2
